@@ -38,6 +38,11 @@ class LeafScenario(Scenario):
                 return True
             if zero and isinstance(op, (ast.LtE, ast.Lt)) and l in ("weight", "w"):
                 return False
+            if l in ("0.0", "0") and r in ("weight", "w", "ca_plus_cb"):
+                if isinstance(op, (ast.Lt, ast.LtE)):
+                    return True
+                if isinstance(op, (ast.Gt, ast.GtE)):
+                    return False
         return super().eval(test, env)
 
 
